@@ -6,6 +6,25 @@
 (* deterministic in the specification, so the logged state must EQUAL the  *)
 (* state computed by the spec operators; the first differing line stops    *)
 (* the trace (reported through the TLCSet register 1 = lines accepted).    *)
+(*                                                                         *)
+(* What an observation carries (harness/cmd/c02):                          *)
+(*   mhpv/mhpc/cert, win, vinfo   the decoded votes store                  *)
+(*   api                          API.GetBFTHeights                        *)
+(*   pkeys/gkeys                  keys of the two parameter stores         *)
+(*   pAt/pW/pHash, nextP          GetBFTParameters(h) (thresholds, weights *)
+(*                                by identity, validatorsHash recomputed   *)
+(*                                by a hand-written encoder) and           *)
+(*                                NextHeightBFTParameters(h)               *)
+(*   gAt, lAt                     GetGeneratorKeys(h), GetLabiValidators   *)
+(* "Peer" lines are observations of OTHER real nodes fed the same chain    *)
+(* (shadow: other list order, never flushed; twin: all heights shifted by  *)
+(* S, all weights multiplied by K, mapped back by the recorder): the same  *)
+(* model state must explain them.                                          *)
+(*                                                                         *)
+(* No stricter than the property: parameters below                         *)
+(*   MinReq = min(oldest window height, certified + 1)                     *)
+(* are never needed again (LIP-0058), so keys <= MinReq and answers for    *)
+(* heights < MinReq are not compared: pruning may be eager or lazy.        *)
 (***************************************************************************)
 EXTENDS LiskBFT, Json
 
@@ -17,35 +36,88 @@ tvars == <<l, votes, rr>>
 
 ToSeqN(f, n) == [i \in 1..n |-> f[i]]
 
+MinReq(v) == IF Len(v.infos) = 0 THEN v.cert + 1 ELSE Min2(v.infos[Len(v.infos)].h, v.cert + 1)
+KeysAbove(ks, m) == SelectSeq(ks, LAMBDA k : k > m)
+
 Project(v) ==
   [mhpv |-> v.mhpv, mhpc |-> v.mhpc, cert |-> v.cert,
    win |-> [i \in 1..Len(v.infos) |-> <<v.infos[i].h, v.infos[i].gen, v.infos[i].mhg, v.infos[i].mhp, v.infos[i].pv, v.infos[i].pc>>],
    vinfo |-> [x \in Validators |-> <<IF v.vinfo[x].active THEN 1 ELSE 0, v.vinfo[x].minActive, v.vinfo[x].lhp>>],
-   pkeys |-> [i \in 1..Len(v.params) |-> v.params[i].from],
-   gkeys |-> [i \in 1..Len(v.gkeys) |-> v.gkeys[i].from]]
+   pkeys |-> KeysAbove([i \in 1..Len(v.params) |-> v.params[i].from], MinReq(v)),
+   gkeys |-> KeysAbove([i \in 1..Len(v.gkeys) |-> v.gkeys[i].from], MinReq(v))]
 
-ObsOf(o) == [mhpv |-> o.mhpv, mhpc |-> o.mhpc, cert |-> o.cert, win |-> o.win, vinfo |-> o.vinfo,
-             pkeys |-> o.pkeys, gkeys |-> o.gkeys]
+ObsOf(v, o) == [mhpv |-> o.mhpv, mhpc |-> o.mhpc, cert |-> o.cert, win |-> o.win, vinfo |-> o.vinfo,
+                pkeys |-> KeysAbove(o.pkeys, MinReq(v)), gkeys |-> KeysAbove(o.gkeys, MinReq(v))]
 
-\* probes of API.GetBFTParameters(h) / NextHeightBFTParameters(h): <<h, found, pvT, pcT, certT>> / <<h, res>>
+Relevant(v, h) == h >= MinReq(v)
+
+\* probes of API.GetBFTParameters(h) / NextHeightBFTParameters(h): <<h, found, pvT, pcT, certT>> + weights by identity / <<h, res>>
 ProbeOK(v, o) ==
   /\ \A i \in 1..Len(o.pAt) :
        LET p == o.pAt[i] IN
-       IF HasParamsAt(v.params, p[1])
-       THEN LET e == ParamsAt(v.params, p[1]) IN p = <<p[1], 1, e.pvT, e.pcT, e.certT>>
-       ELSE p[2] = 0
-  /\ \A i \in 1..Len(o.nextP) : o.nextP[i][2] = NextParamsHeight(v.params, o.nextP[i][1])
+       Relevant(v, p[1]) =>
+         IF HasParamsAt(v.params, p[1])
+         THEN LET e == ParamsAt(v.params, p[1]) IN p = <<p[1], 1, e.pvT, e.pcT, e.certT>> /\ o.pW[i] = e.w
+         ELSE p[2] = 0
+  /\ \A i \in 1..Len(o.nextP) :
+       Relevant(v, o.nextP[i][1]) => o.nextP[i][2] = NextParamsHeight(v.params, o.nextP[i][1])
 
-Matches(v, o) == Project(v) = ObsOf(o) /\ ProbeOK(v, o)
+\* what the probes should have answered (diagnostics only)
+ExpectProbes(v, o) ==
+  [i \in 1..Len(o.pAt) |->
+     LET h == o.pAt[i][1] IN
+     IF ~Relevant(v, h) THEN <<h, "any">>
+     ELSE IF HasParamsAt(v.params, h)
+          THEN LET e == ParamsAt(v.params, h) IN <<h, 1, e.pvT, e.pcT, e.certT, e.w, NextParamsHeight(v.params, h)>>
+          ELSE <<h, 0, NextParamsHeight(v.params, h)>>]
 
-Explain(v, o) == PrintT(<<"MISMATCH", l, ToJson(Project(v))>>)
+\* the validators hash stored with the parameters is the hash of (weights by BLS key, certificate threshold); the weights and
+\* the threshold are compared above, the hash of exactly those values is recomputed by the recorder (hashes are not modelled)
+HashOK(v, o) ==
+  \A i \in 1..Len(o.pAt) : (Relevant(v, o.pAt[i][1]) /\ o.pAt[i][2] = 1) => o.pHash[i] = 1
+
+IdsOf(g) == {g[j] : j \in 2..Len(g)}
+GensAt(v, h) == LET gs == ParamsAt(v.gkeys, h).gens IN {gs[j] : j \in 1..Len(gs)}
+\* API.GetGeneratorKeys(h) = the list set for the largest key <= h (compared as a set of identities: the order of the round is
+\* the application's business); GetLabiValidators joins it with the weights in force at h
+GenOK(v, o) ==
+  \A i \in 1..Len(o.gAt) :
+    LET h == o.pAt[i][1]  g == o.gAt[i] IN
+    Relevant(v, h) =>
+      IF HasParamsAt(v.gkeys, h)
+      THEN /\ g[1] = 1
+           /\ IdsOf(g) = GensAt(v, h)
+           /\ HasParamsAt(v.params, h) =>
+                LET la == o.lAt[i]  e == ParamsAt(v.params, h) IN
+                /\ {la[j][1] : j \in 1..Len(la)} = GensAt(v, h)
+                /\ \A j \in 1..Len(la) : la[j][1] \in Validators /\ la[j][2] = e.w[la[j][1]]
+      ELSE g[1] = 0
+
+ApiOK(v, o) == o.api = <<v.mhpv, v.mhpc, v.cert>>
+
+StateOK(v, o) == Project(v) = ObsOf(v, o) /\ ProbeOK(v, o)
+Matches(v, o) == o.apiErr = 0 /\ StateOK(v, o) /\ ApiOK(v, o) /\ HashOK(v, o) /\ GenOK(v, o)
+
+Explain(v, o) == PrintT(<<"MISMATCH", l, ToJson(Project(v)), ToJson(ExpectProbes(v, o))>>)
 \* ObsBlocking (default): the first deviation of the state ends the validation (everything after it would be noise).
 \* C07 validates the contradiction probes and lets the monitor go on with the MODEL's state past deviations of the observed
 \* state (the same headers were accepted on both sides, so the answers stay comparable); a header accepted by one side
 \* only still ends the validation.
 Blk(p) == IF ObsBlocking THEN ~p ELSE p
 
+\* one verdict per line: the first conjunct that fails names the kind of the deviation
+Check(v, o) ==
+  /\ IF o.apiErr = 0 THEN TRUE ELSE Blk(PrintT(<<"MISMATCH-API", l, "error", o.apiMsg>>))
+  /\ IF o.apiErr = 1 \/ StateOK(v, o) THEN TRUE ELSE Blk(Explain(v, o))
+  /\ IF o.apiErr = 1 \/ ApiOK(v, o) THEN TRUE ELSE Blk(PrintT(<<"MISMATCH-API", l, "GetBFTHeights", <<v.mhpv, v.mhpc, v.cert>>>>))
+  /\ IF o.apiErr = 1 \/ HashOK(v, o) THEN TRUE ELSE Blk(PrintT(<<"MISMATCH-HASH", l, ToJson(ExpectProbes(v, o))>>))
+  /\ IF o.apiErr = 1 \/ GenOK(v, o) THEN TRUE
+     ELSE Blk(PrintT(<<"MISMATCH-GEN", l, ToJson([gkeys |-> v.gkeys, probes |-> ExpectProbes(v, o)])>>))
+
 Ev == TraceLog[l]
+
+\* answers of the peers (shadow, twin) to the same call
+AllP(xs, b) == \A i \in 1..Len(xs) : (xs[i] = 1) = b
 
 TInit == /\ l = 1
          /\ votes = GenesisVotes(0, 3)
@@ -55,7 +127,7 @@ TReset ==
   /\ Ev.ev = "Init"
   /\ votes' = GenesisVotes(Ev.h0, Ev.win)
   /\ rr' = [on |-> Ev.rr = 1, q |-> Ev.q, first |-> Ev.h0 + 1]
-  /\ IF Matches(votes', Ev.obs) THEN TRUE ELSE Blk(Explain(votes', Ev.obs))
+  /\ Check(votes', Ev.obs)
 
 TSetParams ==
   /\ Ev.ev = "SetParams"
@@ -63,29 +135,40 @@ TSetParams ==
          valid == ValidParams(Ev.pcT, Ev.certT, w, votes.win \div 3)
          v1 == IF valid THEN SetGenKeys(SetParams(votes, Ev.pcT, Ev.certT, w), Ev.gens) ELSE votes
      IN /\ votes' = v1
-        /\ IF (Ev.err = 1) = ~valid THEN TRUE ELSE ~PrintT(<<"MISMATCH-ERR", l, valid>>)
-        /\ IF Matches(v1, Ev.obs) THEN TRUE ELSE Blk(Explain(v1, Ev.obs))
+        /\ IF (Ev.err = 1) = ~valid /\ AllP(Ev.errP, ~valid) THEN TRUE ELSE ~PrintT(<<"MISMATCH-ERR", l, valid>>)
+        /\ Check(v1, Ev.obs)
   /\ UNCHANGED rr
 
 TContra ==     \* API.IsHeaderContradictingChain probe, no state change (C07)
   /\ Ev.ev = "Contra"
   /\ LET hdr == [h |-> Ev.h, gen |-> Ev.gen, mhg |-> Ev.mhg, mhp |-> Ev.mhp] IN
-     IF (Ev.res = 1) = ContraChain(votes, hdr) THEN TRUE ELSE Blk(PrintT(<<"MISMATCH-CONTRA", l, ContraChain(votes, hdr)>>))
+     /\ IF Ev.err = 0 THEN TRUE ELSE Blk(PrintT(<<"MISMATCH-API", l, "error", "IsHeaderContradictingChain">>))
+     /\ IF Ev.err = 1 \/ ((Ev.res = 1) = ContraChain(votes, hdr) /\ AllP(Ev.resP, ContraChain(votes, hdr))) THEN TRUE
+        ELSE Blk(PrintT(<<"MISMATCH-CONTRA", l, ContraChain(votes, hdr)>>))
   /\ UNCHANGED <<votes, rr>>
 
 THeader ==
   /\ Ev.ev = "Header"
-  /\ LET hdr == [h |-> Ev.h, gen |-> Ev.gen, mhg |-> Ev.mhg, mhp |-> Ev.mhp, acH |-> Ev.acH, acNonEmpty |-> Ev.acNonEmpty = 1]
+  /\ LET hdr == [h |-> Ev.h, gen |-> Ev.gen, mhg |-> Ev.mhg, mhp |-> Ev.mhp, acH |-> Ev.acH,
+                 \* updateMaxHeightCertified: a commit is empty iff BOTH byte fields are empty
+                 acNonEmpty |-> Ev.acBits = 1 \/ Ev.acSig = 1]
          def == ApplyDefined(votes, hdr)
          v1 == IF def THEN Apply(votes, hdr) ELSE votes
      IN /\ votes' = v1
-        /\ IF (Ev.err = 1) = ~def THEN TRUE ELSE ~PrintT(<<"MISMATCH-ERR", l, def>>)
-        /\ IF Matches(v1, Ev.obs) THEN TRUE ELSE Blk(Explain(v1, Ev.obs))
-        /\ IF ~def \/ (Ev.implies = 1) = ImpliesMaxPrevotes(v1, hdr) THEN TRUE ELSE ~PrintT(<<"MISMATCH-IMPLIES", l>>)
+        /\ IF (Ev.err = 1) = ~def /\ AllP(Ev.errP, ~def) THEN TRUE ELSE ~PrintT(<<"MISMATCH-ERR", l, def>>)
+        /\ Check(v1, Ev.obs)
+        /\ IF ~def \/ ((Ev.implies = 1) = ImpliesMaxPrevotes(v1, hdr) /\ AllP(Ev.impliesP, ImpliesMaxPrevotes(v1, hdr))) THEN TRUE
+           ELSE ~PrintT(<<"MISMATCH-IMPLIES", l>>)
   /\ UNCHANGED rr
 
+TPeer ==       \* the observation of another real node that was fed the same chain (kind "main": the node itself, once more)
+  /\ Ev.ev = "Peer"
+  /\ IF Matches(votes, Ev.obs) THEN TRUE
+     ELSE Blk(PrintT(<<"MISMATCH-PEER", l, Ev.kind, ToJson(Project(votes)), ToJson(ExpectProbes(votes, Ev.obs))>>))
+  /\ UNCHANGED <<votes, rr>>
+
 TNext == /\ l <= Len(TraceLog)
-         /\ (TReset \/ TSetParams \/ TContra \/ THeader)
+         /\ (TReset \/ TSetParams \/ TContra \/ THeader \/ TPeer)
          /\ l' = l + 1
          /\ TLCSet(1, l)
 
